@@ -228,6 +228,10 @@ func runC17(c *core.Ctx) error {
 			return err
 		}
 	}
+	// call histories (SchemaApi_enum.cfg): results do not depend on earlier calls, returned values stay intact
+	if err := runObjHistories(c, objKinds["enum"], objPairs([]string{"[1, \"a\"]", "[\"a\", // c\n 2]", "[1, 1]", "[-1, \"-1\", 1.5]", "[", "[true, null]", "[\"x\", \"y\", \"z\"] // note", "", "[1.0, 1]"}, c.Pick(9, 36), c.Seed)); err != nil {
+		return err
+	}
 	c.Set("rule", "token paths of the TLC-dumped EnumRule automaton (<= 3 items from two 12-scalar halves of a 19-scalar catalogue): access sequence of every state followed by every token sequence <= k, plus seeded random walks; printed to text and replayed on enum.New (Check, Values) and, per distinct accepted item list, on schemas using the rule by name vs inline for every catalogue value. distinct_nontrivial = distinct (state, token) edges crossed")
 	c.Assume = append(c.Assume, "annotation entries (no value) returned by Values() are not counted as scalars", "the empty list and annotations before '[' have no verdict")
 	return nil
@@ -370,6 +374,9 @@ func runC17cfg(c *core.Ctx, cfgName string) error {
 func init() {
 	register(&core.Check{ID: "C17", Level: "model_checking", Run: runC17,
 		Replay: func(c *core.Ctx, raw json.RawMessage) ([]core.Finding, error) {
+			if fs, ok := objReplayCase(raw); ok {
+				return fs, nil
+			}
 			var cs enCase
 			if err := json.Unmarshal(raw, &cs); err != nil {
 				return nil, err
